@@ -392,15 +392,17 @@ TWord(s, n, idx)      == [L0 EXCEPT !.s = s, !.n = n, !.k = "word", !.w = idx, !
 TText(s, n, idx)      == [L0 EXCEPT !.s = s, !.n = n, !.k = "text", !.w = idx, !.free = TRUE, !.g = <<"sdp">>]
 TLine(s, n)           == [L0 EXCEPT !.s = s, !.n = n, !.k = "line", !.el = TRUE, !.g = <<"sdp">>]
 
-SdpSession ==
+SdpSessionCore ==
   << TLine("v=", "v.line"), TNum("v=", "version", 0, 32),
      TLine("o=", "o.line"), TText("o=", "o.user", 0), TNum("o=", "o.sessid", 1, 64), TNum("o=", "o.sessver", 2, 64),
        TWord("o=", "o.nettype", 3), TWord("o=", "o.addrtype", 4), TText("o=", "o.addr", 5),
      TLine("s=", "s.line"),
-     TLine("t=", "t.line"), TNum("t=", "t.start", 0, 64), TNum("t=", "t.stop", 1, 64),
-     TLine("a=group:", "group.line"), TWord("a=group:", "group.sem", 0), TText("a=group:", "group.mid", 1) >>
+     TLine("t=", "t.line"), TNum("t=", "t.start", 0, 64), TNum("t=", "t.stop", 1, 64) >>
+SdpBundle ==
+  << TLine("a=group:", "group.line"), TWord("a=group:", "group.sem", 0), TText("a=group:", "group.mid", 1) >>
 
-SdpMedia ==
+\* what every RTP media section has
+SdpMediaCore ==
   << TLine("m=", "m.line"), TWord("m=", "m.kind", 0), TNum("m=", "m.port", 1, 16), TWord("m=", "m.proto", 2),
        TNum("m=", "m.fmt", 3, 8),
      TLine("c=", "c.line"), TWord("c=", "c.nettype", 0), TWord("c=", "c.addrtype", 1), TText("c=", "c.addr", 2),
@@ -408,22 +410,24 @@ SdpMedia ==
      TLine("a=rtpmap:", "rtpmap.line"), TNum("a=rtpmap:", "rtpmap.pt", 0, 8), TText("a=rtpmap:", "rtpmap.enc", 1),
        TNum("a=rtpmap:", "rtpmap.rate", 2, 32),
      TLine("a=fmtp:", "fmtp.line"), TNum("a=fmtp:", "fmtp.pt", 0, 8), TText("a=fmtp:", "fmtp.params", 1),
-     TLine("a=rtcp-fb:", "rtcpfb.line"), TNum("a=rtcp-fb:", "rtcpfb.pt", 0, 8), TWord("a=rtcp-fb:", "rtcpfb.kind", 1),
+     TLine("a=sendrecv", "dir.line") >>
+\* what a WebRTC (ICE + DTLS) media section adds
+SdpMediaIce ==
+  << TLine("a=rtcp-fb:", "rtcpfb.line"), TNum("a=rtcp-fb:", "rtcpfb.pt", 0, 8), TWord("a=rtcp-fb:", "rtcpfb.kind", 1),
      TLine("a=extmap:", "extmap.line"), TNum("a=extmap:", "extmap.id", 0, 8), TText("a=extmap:", "extmap.uri", 1),
      TLine("a=ssrc:", "ssrc.line"), TNum("a=ssrc:", "ssrc.id", 0, 32), TText("a=ssrc:", "ssrc.attr", 1),
      TLine("a=ice-ufrag:", "ufrag.line"), TText("a=ice-ufrag:", "ufrag", 0),
      TLine("a=ice-pwd:", "pwd.line"), TText("a=ice-pwd:", "pwd", 0),
      TLine("a=fingerprint:", "fp.line"), TWord("a=fingerprint:", "fp.alg", 0), TText("a=fingerprint:", "fp.hex", 1),
      TLine("a=setup:", "setup.line"), TWord("a=setup:", "setup", 0),
-     TLine("a=sendrecv", "dir.line"),
      TLine("a=rtcp-mux", "mux.line"),
      TLine("a=candidate:", "cand.line"), TText("a=candidate:", "cand.foundation", 0), TNum("a=candidate:", "cand.component", 1, 16),
        TWord("a=candidate:", "cand.transport", 2), TNum("a=candidate:", "cand.priority", 3, 32), TText("a=candidate:", "cand.ip", 4),
        TNum("a=candidate:", "cand.port", 5, 16), TWord("a=candidate:", "cand.typkw", 6), TWord("a=candidate:", "cand.typ", 7) >>
 
 SdpApplication ==
-  << TLine("m=application", "mapp.line"), TNum("m=application", "mapp.port", 0, 16), TWord("m=application", "mapp.proto", 1),
-       TText("m=application", "mapp.fmt", 2),
+  << TLine("m=application ", "mapp.line"), TNum("m=application ", "mapp.port", 0, 16), TWord("m=application ", "mapp.proto", 1),
+       TText("m=application ", "mapp.fmt", 2),
      TLine("a=sctp-port:", "sctpport.line"), TNum("a=sctp-port:", "sctpport", 0, 16),
      TLine("a=max-message-size:", "maxmsg.line"), TNum("a=max-message-size:", "maxmsg", 0, 32) >>
 
@@ -435,10 +439,10 @@ SdpCrypto ==
   << TLine("a=crypto:", "crypto.line"), TNum("a=crypto:", "crypto.tag", 0, 16), TWord("a=crypto:", "crypto.suite", 1),
        TText("a=crypto:", "crypto.key", 2) >>
 
-\* genuine descriptions: WebRTC offer (audio+video+application), simulcast offer, SDES (RTP/SAVP) offer
-SdpWebrtc    == SdpSession \o SdpMedia \o SdpApplication
-SdpSim       == SdpSession \o SdpMedia \o SdpSimulcast
-SdpSdes      == SdpSession \o SdpMedia \o SdpCrypto
+\* genuine descriptions: browser-style WebRTC offer (audio+video+application), simulcast offer, SDES (RTP/SAVP) offer
+SdpWebrtc    == SdpSessionCore \o SdpBundle \o SdpMediaCore \o SdpMediaIce \o SdpApplication
+SdpSim       == SdpSessionCore \o SdpBundle \o SdpMediaCore \o SdpMediaIce \o SdpSimulcast
+SdpSdes      == SdpSessionCore \o SdpMediaCore \o SdpCrypto
 \* a candidate string alone (IceCandidate::from_sdp, add_ice_candidate)
 CandidateLine ==
   << TLine("candidate:", "cand.line"), TText("candidate:", "cand.foundation", 0), TNum("candidate:", "cand.component", 1, 16),
